@@ -125,6 +125,27 @@ impl Bus {
         let _ = self.ctl.set_nonblocking(false);
     }
     pub fn release(&self) { self.paused.store(false, Ordering::SeqCst); }
+
+    /// ONE receive error (ECONNRESET) on the first socket an endpoint process opened on this interface (the receive
+    /// socket of a NetworkAuthority; its clones bind later): a datagram socket that dissolves its association while
+    /// data is pending in its own queue resets its peer - the emulated counterpart of ENETDOWN on SocketCAN
+    pub fn rx_error_on_first_endpoint(&self) -> bool {
+        let mut eps: Vec<(u64, PathBuf)> = self.endpoints().into_iter().filter_map(|p| {
+            let n = p.file_name()?.to_string_lossy().to_string();
+            let parts: Vec<&str> = n.split('.').collect();
+            let k: u64 = parts.get(parts.len().checked_sub(2)?)?.parse().ok()?;
+            Some((k, p)) }).collect();
+        eps.sort();
+        let Some((_, ep)) = eps.first().cloned() else { return false };
+        self.congest();                       // the hub stops reading; junk stays pending in its queue
+        let ok = self.hub2.connect(&ep).is_ok();
+        let mut unspec: libc::sockaddr = unsafe { std::mem::zeroed() };
+        unspec.sa_family = libc::AF_UNSPEC as libc::sa_family_t;
+        use std::os::fd::AsRawFd;
+        let rc = unsafe { libc::connect(self.hub2.as_raw_fd(), &unspec, std::mem::size_of::<libc::sockaddr>() as libc::socklen_t) };
+        self.release();
+        ok && rc == 0
+    }
     /// the flag `release` clears, for a helper thread that ends a stall after a delay
     pub fn pause_flag(&self) -> Arc<AtomicBool> { self.paused.clone() }
 
